@@ -19,7 +19,7 @@
     (paths of methods of [sk]); [wp] switches sync.RWMutex's writer preference
     on or off (the theorems hold for both); [wfun] are the (uninterpreted)
     functions computing written values from the values read. *)
-From HV Require Import Base.Prelude Base.Locks C07.Model C07.Lin C07.Proofs C07.Examples Gen.RepoSkel C07.Repo.
+From HV Require Import Base.Prelude Base.Locks C07.Model C07.Lin C07.Proofs C07.Examples Gen.RepoSkel C07.Repo C07.Sched.
 
 (** no interleaving reaches a crash: unlock of an unlocked mutex, nil
     dereference (use of an object pointer that was never loaded), or code the
@@ -207,3 +207,43 @@ Theorem C07_repo_linearizable :
          (forall v, c_val c v = s_val σ v) /\ (forall p, c_heap c (c_ptr c p) = s_pub σ p)).
 Proof. exact repo_linearizable. Qed.
 Print Assumptions C07_repo_linearizable.
+
+(** THE RUN-TIME TIE between the code and the model (stream "sched" of the check).  The instrumented copy of
+    repository_impl.go logs, under every explored schedule, what the real code did ([items]: invocations,
+    responses, lock operations as granted, accesses to the guarded fields, method calls on the tree objects).
+    [replay] (C07/Sched.v) follows such a log through the interleaving semantics of the skeleton [sk]: every
+    logged event must be the next event of a path of its method and be enabled in the model, on the objects
+    the model computes.  Whatever [replay] went through — all of the log when it reports no error — IS an
+    execution of the skeleton semantics (no writer preference) from [c0] ... *)
+Theorem C07_explored_schedule_is_model_execution :
+  forall (val arg : Type) (wfun : op arg -> nat -> list val -> val) (sk : skel) (a0 : arg)
+         (c0 : cfg val arg) (items : list item) (s' : rpst val arg) (err : option rerr),
+    replay wfun sk a0 items (rpst0 c0) = (s', err) ->
+    exec wfun sk false c0 (rev (rs_lab s')) (rs_cfg s').
+Proof. exact replay_sound. Qed.
+Print Assumptions C07_explored_schedule_is_model_execution.
+
+(** ... whose invocations and responses are exactly the logged ones (same threads, same methods, same order):
+    the history that [C07_linearizable] linearizes is the history of the real run ... *)
+Theorem C07_explored_schedule_same_history :
+  forall (val arg : Type) (wfun : op arg -> nat -> list val -> val) (sk : skel) (a0 : arg)
+         (c0 : cfg val arg) (items : list item) (s' : rpst val arg),
+    replay wfun sk a0 items (rpst0 c0) = (s', None) ->
+    flat_map label_io (rev (rs_lab s')) = flat_map item_io items.
+Proof. exact replay_history. Qed.
+Print Assumptions C07_explored_schedule_same_history.
+
+(** ... so for a skeleton that passes the check the theorems above hold OF THAT RUN of the real code: the
+    configuration it reaches is no crash and no data race, and the run has a linearization *)
+Theorem C07_explored_schedule_safe :
+  forall (val arg : Type) (wfun : op arg -> nat -> list val -> val) (sk : skel) (a0 : arg) (K : lock)
+         (c0 : cfg val arg) (items : list item) (s' : rpst val arg) (err : option rerr),
+    wf_skel K sk = true -> initial c0 -> replay wfun sk a0 items (rpst0 c0) = (s', err) ->
+    ~ bad (rs_cfg s') /\ ~ var_race (rs_cfg s') /\ ~ obj_race (rs_cfg s') /\
+    exists σ pl tr ph,
+      lin wfun sk false c0 (rev (rs_lab s')) (rs_cfg s') σ pl tr /\
+      seq_hist wfun sk (abs_of c0) (lins tr) σ /\
+      wb (fun _ => PIdle) tr ph /\
+      io_marks tr = io_labels (rev (rs_lab s')).
+Proof. exact replay_run_safe. Qed.
+Print Assumptions C07_explored_schedule_safe.
